@@ -75,6 +75,14 @@ class Sched(object):
         self.trace_log = []
         self.aborted = False
         self.in_critical_preempt = 0
+        self._locks = []
+
+    def new_lock(self):
+        """A cooperative lock created by the code under test itself (see
+        ThreadingShim): known to the scheduler from its creation."""
+        lock = CoopLock(self)
+        self._locks.append(lock)
+        return lock
 
     # -- worker side ---------------------------------------------------------
     def current_tid(self):
@@ -164,7 +172,7 @@ class Sched(object):
     # -- controller ------------------------------------------------------------
     def run(self, jobs, locks=()):
         """jobs: list of callables. Returns (results, errors)."""
-        self._locks = list(locks)
+        self._locks.extend(locks)
         threads = []
 
         def worker(tid, fn):
@@ -210,3 +218,20 @@ class Sched(object):
                 t.join(5)
             self.errors["hang"] = True
         return self.results, self.errors
+
+
+class ThreadingShim(object):
+    """Stands in for the ``threading`` module inside one module under test:
+    every lock that module creates - in a constructor or lazily, at first
+    use - is a cooperative lock of the scheduler."""
+
+    def __init__(self, sched):
+        self._sched = sched
+
+    def Lock(self):
+        return self._sched.new_lock()
+
+    RLock = Lock
+
+    def __getattr__(self, name):
+        return getattr(threading, name)
